@@ -3,6 +3,9 @@ macro_rules! registry {
     ($action:ident, $id:expr, $ctx:expr, $path:expr) => {
         match $id {
             "C01" => dispatch!($action, props::c01::C01, $ctx, $path),
+            "C24" => dispatch!($action, props::c24::C24, $ctx, $path),
+            "C27" => dispatch!($action, props::c27::C27, $ctx, $path),
+            "C28" => dispatch!($action, props::c28::C28, $ctx, $path),
             _ => {
                 eprintln!("unknown property {}", $id);
                 2
